@@ -7,25 +7,38 @@ SESSIONS = {
     # property: list of (nops, recursive, settled, one_per_read, spelling, full) for (quick, thorough-extra)
     "C03": ([(1, True, True, False, "str", False), (1, False, True, True, "bytes", False),
              (1, True, True, False, "str", True)],
-            [(1, True, True, True, "bytes", False), (2, True, True, False, "str", False)]),
+            [(1, True, True, True, "bytes", False), (1, False, True, False, "str", True)]),
     "C01": ([(1, True, True, False, "str", False), (1, False, True, True, "bytes", True)],
-            [(2, True, False, False, "str", False), (2, True, True, False, "str", False)]),
+            [(1, True, True, True, "bytes", False), (1, False, True, False, "str", False)]),
     "C02": ([(1, True, True, True, "str", False), (1, False, True, False, "bytes", False)],
-            [(2, True, False, False, "str", False), (2, True, True, False, "str", False)]),
+            [(1, True, True, False, "bytes", False), (1, True, True, False, "str", True)]),
     "C07": ([(1, True, True, False, "str", False), (1, True, True, True, "bytes", False)],
-            [(2, True, False, False, "str", False), (2, True, True, False, "str", False)]),
+            [(1, False, True, False, "str", False), (1, True, True, False, "str", True)]),
     "C19": ([(1, True, True, False, "slash", False), (1, True, True, True, "bytes", False),
              (1, False, True, False, "str", True)],
-            [(2, True, True, False, "slash", False)]),
+            [(1, True, True, False, "str", False), (1, False, True, True, "slash", False)]),
 }
+# (fully symbolic two-operation histories were tried for the thorough tier: one such session does not finish building
+#  within an hour; histories of two operations are covered by the directed sessions below instead)
 
 
 # directed two-operation histories: the first operation is fixed, the second symbolic
+MOVE_OUT = ("move directory /r/a out of the tree", ("rename", b"/r/a", b"/o/c"))
+MKDIR = ("mkdir /r/c", ("mkdir", b"/r/a", b"/r/c"))
+RENAME_DIR = ("rename directory /r/a to /r/c", ("rename", b"/r/a", b"/r/c"))
+MOVE_IN = ("move directory /o/x into the tree as /r/c", ("rename", b"/o/x", b"/r/c"))
 DIRECTED = {
-    "C03": [("move directory /r/a out of the tree", ("rename", b"/r/a", b"/o/c"))],
-    "C07": [("move directory /r/a out of the tree", ("rename", b"/r/a", b"/o/c"))],
-    "C01": [("mkdir /r/c", ("mkdir", b"/r/a", b"/r/c"))],
-    "C02": [("mkdir /r/c", ("mkdir", b"/r/a", b"/r/c"))],
+    "C03": [MOVE_OUT],
+    "C07": [MOVE_OUT],
+    "C01": [MKDIR],
+    "C02": [MKDIR],
+}
+DIRECTED_THOROUGH = {
+    "C03": [RENAME_DIR],
+    "C07": [RENAME_DIR, MOVE_IN],
+    "C01": [RENAME_DIR, MOVE_IN],
+    "C02": [RENAME_DIR, MOVE_IN],
+    "C19": [RENAME_DIR],
 }
 
 
@@ -34,7 +47,7 @@ def check(rep, pid):
     q, t = SESSIONS[pid]
     cfgs = list(q) + ([] if quick else list(t))
     specs = []
-    for title, first in DIRECTED.get(pid, []):
+    for title, first in DIRECTED.get(pid, []) + ([] if quick else DIRECTED_THOROUGH.get(pid, [])):
         settled = pid in ("C03", "C07")
         specs.append(dict(name=f"{pid}: directed history: {title}, then any operation ({'settled' if settled else 'back-to-back'}), recursive, str",
                           module="vf.props.fsfam", harness="h_history",
